@@ -19,7 +19,7 @@ def sh(cmd, cwd, timeout=1800, env=None):
 
 def main():
     sid, wt, prop = sys.argv[1], Path(sys.argv[2]), sys.argv[3]
-    checks = sys.argv[4:] or [prop]
+    checks = [prop] + [c for c in sys.argv[4:] if c != prop]
     demo = next(wt.glob("demo_*.py"))
     out = {"id": sid, "property": prop, "worktree": str(wt), "ran": []}
     rc, o = sh("/venv/bin/python -m pytest -q -p no:cacheprovider --timeout=900 2>&1 | tail -2", wt)
